@@ -23,3 +23,53 @@ package packet
 //@   props C05
 //@   requires 0 <= i && i < len(s)
 //@   ensures [one-shorter] len(result) == len(s) - 1
+
+// ---- C07: packets the proxy builds carry the vanilla wire layout -------------------------------------------------
+// Field order, field types and version gates below are transcribed from the protocol documentation (not from the
+// encoders); each field writer is one of the byte-exact primitives of proto/util (C03).
+// Keep Alive: long from 1.12.2, VarInt from 1.8, int before.
+//@ func (*KeepAlive).Encode
+//@   props C07
+//@   at-call GreaterEqual#1 as g1: assert arg0 == c.Protocol && arg1 == version.Minecraft_1_12_2
+//@   at-call GreaterEqual#2 as g2: assert arg0 == c.Protocol && arg1 == version.Minecraft_1_8 && called(g1) && !res(g1)
+//@   at-call WriteInt64 as f64: assert called(g1) && res(g1) && arg1 == k.RandomID
+//@   at-call WriteVarInt as fvi: assert called(g2) && res(g2) && arg1 == int(k.RandomID)
+//@   at-call WriteInt32 as f32: assert called(g2) && !res(g2) && arg1 == int32(k.RandomID)
+//@   ensures [one-field] called(g1) && (res(g1) ==> called(f64) && result == res(f64)) && (!res(g1) ==> called(g2) && (res(g2) ==> called(fvi) && result == res(fvi)) && (!res(g2) ==> called(f32) && result == res(f32)))
+// Handshake: protocol VarInt, address String, port unsigned short, next state VarInt.
+//@ func (*Handshake).Encode
+//@   props C07
+//@   at-call WriteVarInt#1 as f1: assert arg1 == h.ProtocolVersion
+//@   at-call WriteString as f2: assert called(f1) && res(f1) == nil && streq(arg1, h.ServerAddress)
+//@   at-call WriteInt16 as f3: assert called(f2) && res(f2) == nil && arg1 == int16(h.Port)
+//@   at-call WriteVarInt#2 as f4: assert called(f3) && res(f3) == nil && arg1 == h.NextStatus
+//@   ensures [all-fields-or-an-error] result == nil ==> called(f1) && called(f2) && called(f3) && called(f4)
+// Set Compression: threshold VarInt.
+//@ func (*SetCompression).Encode
+//@   props C07
+//@   at-call WriteVarInt as f1: assert arg1 == s.Threshold
+//@   ensures called(f1) && result == res(f1)
+// Login Plugin Response: id VarInt, success Bool, then the raw rest.
+//@ func (*LoginPluginResponse).Encode
+//@   props C07
+//@   at-call WriteVarInt as f1: assert arg1 == l.ID
+//@   at-call WriteBool as f2: assert called(f1) && res(f1) == nil && arg1 == l.Success
+//@   at-call WriteRawBytes as f3: assert called(f2) && res(f2) == nil && ref(arg1) == ref(l.Data) && len(arg1) == len(l.Data)
+//@   ensures [all-fields-or-an-error] err == nil ==> called(f1) && called(f2) && called(f3)
+// Status ping: one long. Transfer: host String, port VarInt. Login plugin request: id VarInt, channel String, raw rest.
+//@ func (*StatusPing).Encode
+//@   props C07
+//@   at-call WriteInt64 as f1: assert arg1 == s.RandomID
+//@   ensures called(f1) && result == res(f1)
+//@ func (*Transfer).Encode
+//@   props C07
+//@   at-call WriteString as f1: assert streq(arg1, t.Host)
+//@   at-call WriteVarInt as f2: assert called(f1) && res(f1) == nil && arg1 == t.Port
+//@   ensures [all-fields-or-an-error] result == nil ==> called(f1) && called(f2)
+//@ func (*LoginPluginMessage).Encode
+//@   props C07
+//@   maypanic
+//@   at-call VarInt as f1: assert arg1 == l.ID
+//@   at-call String as f2: assert called(f1) && streq(arg1, l.Channel)
+//@   at-call WriteRawBytes as f3: assert called(f2) && ref(arg1) == ref(l.Data) && len(arg1) == len(l.Data)
+//@   ensures called(f1) && called(f2) && called(f3)
